@@ -26,14 +26,6 @@ func ints(rs []rune) []int {
 	return out
 }
 
-// swallowRisk: could a CR/LF be consumed by the escape machine (a backtick, then only characters on which the
-// machine continues, then CR or LF)?  Same definition as swallow_risk in coq/model/StringLitRun.v.  For such
-// sources the recorded lines are not compared (C18's subject).
-func escContinue(c rune) bool {
-	return (c >= '0' && c <= '9') || (c >= 'A' && c <= 'F') || c == 'L' || c == 'T' || c == 'S' || c == 'U' ||
-		c == 'R' || c == 'P' || c == 'K' || c == '+'
-}
-
 func isQuote(x rune) bool {
 	switch x {
 	case 0x300A, 0x300B, 0x300C, 0x300D, 0x201C, 0x201D, 0x300E, 0x300F, 0x2018, 0x2019:
@@ -42,27 +34,8 @@ func isQuote(x rune) bool {
 	return false
 }
 
-func swallowRisk(src []rune) bool {
-	inRun := false
-	for _, x := range src {
-		switch {
-		case x == '`':
-			inRun = true
-		case x == '\r' || x == '\n':
-			if inRun {
-				return true
-			}
-			inRun = false
-		case escContinue(x):
-		default:
-			inRun = false
-		}
-	}
-	return false
-}
-
 // lexOne runs NextToken once on src (the literal starts at index 0).
-// Encoding (shared with the Coq side):  ok: [1, type, end, nlit, lit..., nlines, lines...]  (lines as [0] when not judged)
+// Encoding (shared with the Coq side):  ok: [1, type, end, nlit, lit..., nlines, lines...]
 //
 //	error: [0, code]   other: [2]
 func lexOne(src []rune) (enc []int, cursor int) {
@@ -76,13 +49,9 @@ func lexOne(src []rune) (enc []int, cursor int) {
 	}
 	enc = []int{1, int(tk.Type), tk.EndIdx, len(tk.Literal)}
 	enc = append(enc, ints(tk.Literal)...)
-	if swallowRisk(src) {
-		enc = append(enc, 0)
-	} else {
-		enc = append(enc, len(l.Lines))
-		for _, li := range l.Lines {
-			enc = append(enc, li.StartIdx)
-		}
+	enc = append(enc, len(l.Lines))
+	for _, li := range l.Lines {
+		enc = append(enc, li.StartIdx)
 	}
 	return enc, l.GetCursor()
 }
